@@ -145,6 +145,18 @@ pub fn run(ctx: &Ctx) -> CheckResult {
         c.meta = json!({"orig_step": null, "orig_file": path, "dec": 0, "comp": 1, "item": item.id, "out_file": path});
         cases.push(c);
     }
+    // ---- (1c) `decompile FILE > out` and `decompile FILE -o out` write the same text
+    for item in &bins {
+        let mut c = scen::binary_roundtrip_case(item, &[], None, true);
+        c.steps.truncate(1);
+        let reference_argv = c.steps[0].argv.clone();
+        scen::decompile_to_stdout(&mut c.steps[0]);
+        c.property = "C01".into();
+        c.oracle = "stale".into();
+        c.name = format!("{} [> file vs -o file]", c.name);
+        c.meta = json!({"stale": [], "variant": "stdout-vs-o", "reference_steps": [reference_argv], "reference_no_stdout_redirect": true});
+        cases.push(c);
+    }
     // ---- (2) compiler outputs of the corpus
     for item in scen::source_items(&ctx.corpus) {
         if item.tags.iter().any(|t| t == "no-roundtrip") {
